@@ -7,6 +7,8 @@ from .vecdiff import *
 
 WITNESSES = ["W05"]
 
+CRATES = (IM,)
+
 META = {
     "explanation": (
         "Static decision on MIR of how every mutator of ObservableVector and of ObservableVectorTransaction publishes: R05.1 writer/reader table "
